@@ -497,7 +497,13 @@ class Runner:
         coll = SLOTS[st["coll"]]
         sets = [tuple(p) for p in st.get("set", [])]
         removes = list(st.get("remove", []))
-        body = dav.proppatch_body(sets, removes)
+        instr = [tuple(i) for i in st.get("instr", [])]
+        if instr:
+            # instructions in document order (RFC 4918 9.2): the model applies them in that order
+            body = dav.proppatch_body_ordered(instr)
+        else:
+            body = dav.proppatch_body(sets, removes)
+            instr = [("set", k, v) for k, v in sets] + [("remove", k) for k in removes]
         r = self.req(st["fe"], "PROPPATCH", coll + "/", [dav.XML_CT], body)
         self.last = {"op": "PROPPATCH", "resp": r, "coll": coll, "ack": False, "acked": []}
         if r.status >= 500:
@@ -507,24 +513,23 @@ class Runner:
         mc = self.model.colls.get(coll)
         if ms is not None and ms.responses:
             resp = ms.responses[0]
-            for k, v in sets:
-                if resp.prop_status(k) == 200:
-                    if mc is None:
-                        self.violation("content", "proppatch-ack-missing", f"PROPPATCH on missing {coll} acknowledged")
-                    mc.props[k] = v
-                    mc.epoch += 1
-                    self.coll_writes[coll] += 1
-                    self.last["acked"].append(k)
+            self.last["removed"] = []
+            for it in instr:
+                k = it[1]
+                if resp.prop_status(k) != 200:
+                    continue
+                if mc is None:
+                    self.violation("content", "proppatch-ack-missing", f"PROPPATCH on missing {coll} acknowledged")
+                if it[0] == "set":
+                    mc.props[k] = it[2]
                     self.stats["ack:propset"] += 1
-            for k in removes:
-                if resp.prop_status(k) == 200:
-                    if mc is None:
-                        self.violation("content", "proppatch-ack-missing", f"PROPPATCH on missing {coll} acknowledged")
+                else:
                     mc.props.pop(k, None)
-                    mc.epoch += 1
-                    self.coll_writes[coll] += 1
-                    self.last["acked"].append(k)
+                    self.last["removed"].append(k)
                     self.stats["ack:propremove"] += 1
+                mc.epoch += 1
+                self.coll_writes[coll] += 1
+                self.last["acked"].append(k)
             self.last["ack"] = bool(self.last["acked"])
         if not self.last["ack"]:
             self.stats["noack:write"] += 1
@@ -1075,10 +1080,10 @@ class Runner:
         if last.get("op") == "PROPPATCH" and step is not None:
             mc = self.model.colls.get(last["coll"])
             if mc is not None:
-                for k in step.get("remove", []):
-                    if k in last.get("acked", []) and k not in mc.props:
+                for k in last.get("removed", []):
+                    if k not in mc.props:
                         self.removed_props[(last["coll"], k)] = True
-                for k, v in step.get("set", []):
+                for k in last.get("acked", []):
                     if k in mc.props:
                         self.removed_props.pop((last["coll"], k), None)
         for coll, mc in self.model.colls.items():
